@@ -8,3 +8,17 @@ Theorem C10_lex_roundtrip :
   forall (d : doc) (trail : list sep), wf_doc d trail = true -> lex (render d trail) = map snd d.
 Proof. exact LexRoundtrip.lex_render. Qed.
 Print Assumptions C10_lex_roundtrip.
+
+From YG Require Import Front FrontUsable.
+
+(* grammar level, on the model of the visitor: whenever the visitor accepts an AST, the rules it hands
+   on are exactly the rules of the AST, in order, each with its left-hand side and its right-hand-side
+   symbols in order (actions and %prec annotations travel in the same record) *)
+Theorem C10_rules_as_written :
+  forall (a : ast) (v : visited),
+    visit a = inr v ->
+    map (fun x : vrule => (v_lhs x, v_rhs x)) (vs_rules v) = map (fun r : ruledef => (r_lhs r, rsyms (r_rhs r))) (a_rules a).
+Proof.
+  intros a v H. pose proof (FrontUsable.visit_cases a) as C. rewrite H in C. exact (proj2 C).
+Qed.
+Print Assumptions C10_rules_as_written.
